@@ -354,6 +354,11 @@ class Ctx:
                         changed = True
 
         goal_gens = set(active_gens)
+        # domain assumptions are always relevant, so the generators they mention are too (an assumption that the
+        # current model happens to satisfy still constrains them)
+        for f in pool:
+            if f.kind == "dom":
+                active_gens.update(self.fact_gens(f))
         close()
         # distance of every fact from the goal in the generator-sharing graph
         layer = {}
